@@ -11,7 +11,7 @@ DISPATCH = "runtime-conversion-dispatch"
 FACILITY = {"abbr": "abbreviations", "stream-enum": "abbreviations", "parse": "spellings",
             "consistent": "consistent-units", "related": "related-unit-systems",
             "ctor-unit": DISPATCH, "value-unit": DISPATCH, "print-unit": DISPATCH, "ser-unit": DISPATCH,
-            "stream-q": "abbreviations", "print-std": "abbreviations", "compare": DISPATCH,
+            "stream-q": DISPATCH, "print-std": DISPATCH, "compare": DISPATCH,
             "convert": DISPATCH, "convert-inplace": DISPATCH, "static": "none", "plain": "none",
             "system": "unit-system-tables", "model": "model-tables", "dims": "none"}
 TABLE_KINDS = {k for k, v in FACILITY.items() if v != "none"}
@@ -318,6 +318,8 @@ def as_item(probe, pid, rng, allow_literal=True):
 
 
 def render_item(it):
+    if it["form"] == "neighbour":
+        return it["code"] + "\n"
     pid = it["id"]
     if it["form"] == "wrapped":
         return ("static std::string probe_fn_%d() { %s }\n"
